@@ -90,3 +90,25 @@ Example history_example2_reports_failure :
   out (step_world busy3v (OReplace 11 [mkWid 7 0 0], Some 9%nat)) =
   [MClose; MReplace (mkWid 7 0 0) None false (Some EInjected)].
 Proof. vm_compute. reflexivity. Qed.
+
+(* two reallocs on different nodes, interleaved call by call, one of them hit by a fault: the hypotheses of the
+   commutation theorem hold of the concrete world, and (computed) the alternating schedule gives the sequential result *)
+From Verif Require Import Calcium.Interleave Calcium.InterleaveOps.
+Example realloc_pair_example : forall sched k1 k2,
+  run2 sched (realloc (mkWid 7 0 0) (50, 100)%Z) k1 (realloc (mkWid 8 1 0) (100, 200)%Z) k2 busy3v =
+  run2 [] (realloc (mkWid 7 0 0) (50, 100)%Z) k1 (realloc (mkWid 8 1 0) (100, 200)%Z) k2 busy3v.
+Proof.
+  apply (realloc_pair_interleave (mkWid 7 0 0) (mkWid 8 1 0) 0%nat 1%nat).
+  - discriminate.
+  - discriminate.
+  - intros x Hx Hid. unfold busy3v in Hx; simpl in Hx. destruct Hx as [<-|[<-|[<-|[]]]]; try reflexivity; discriminate.
+  - intros x Hx Hid. unfold busy3v in Hx; simpl in Hx. destruct Hx as [<-|[<-|[<-|[]]]]; try reflexivity; discriminate.
+Qed.
+
+Example realloc_pair_computed :
+  let alternating := [true; false; true; false; true; false; true; false; true; false; true; false; true; false; true; false] in
+  run2 alternating (realloc (mkWid 7 0 0) (50, 100)%Z) (Some 8%nat) (realloc (mkWid 8 1 0) (100, 200)%Z) None busy3v =
+  run2 [] (realloc (mkWid 7 0 0) (50, 100)%Z) (Some 8%nat) (realloc (mkWid 8 1 0) (100, 200)%Z) None busy3v /\
+  snd (fst (run2 [] (realloc (mkWid 7 0 0) (50, 100)%Z) (Some 8%nat) (realloc (mkWid 8 1 0) (100, 200)%Z) None busy3v)) = Some EInjected /\
+  snd (run2 [] (realloc (mkWid 7 0 0) (50, 100)%Z) (Some 8%nat) (realloc (mkWid 8 1 0) (100, 200)%Z) None busy3v) = None.
+Proof. vm_compute. repeat split; reflexivity. Qed.
